@@ -42,6 +42,9 @@ def spectra(gaps=None):
     for gl, d in gaps:                       # all three nearly equal (C = I + 2 strain at tiny strain); added after a
         if d > 0.0:                          # seeded change of the spherical-tensor threshold went undetected
             out.append(("aaa:%s" % gl, (1.5, 1.5 * (1.0 + d), 1.5 * (1.0 + 2.0 * d)), "spd"))
+    # C = I + 2 strain at a strain of 1e-9: log/pow/sqrt of it are O(1e-9) tensors, so a spectrum flattened to its mean
+    # is a 100 % error of the function value although it is a 1e-9 error of the eigen-decomposition
+    out.append(("nearI:1e-9", (1.0, 1.0 + 1.0e-9, 1.0 + 2.0e-9), "spd"))
     out.append(("rank2", (0.0, 1.0, 2.0), "psd"))
     out.append(("rank1", (0.0, 0.0, 1.0), "psd"))
     out.append(("rank0", (0.0, 0.0, 0.0), "psd"))
